@@ -115,6 +115,8 @@ def worker_init():
                     fn(d)
                 except yaml.YAMLError as e:
                     str(e)
+                except Exception:
+                    pass          # the warm-up must never fail: whatever the tree does is judged by the armed runs
     MON.learn(run)
     NAMES = G.module_names()
 
